@@ -2,5 +2,5 @@
 # runs every built check (quick tier by default) and prints one line each
 cd "$(dirname "$0")/.."
 for p in $(python3 -c "import json;print(' '.join(c['property_id'] for c in json.load(open('MANIFEST.json'))['checks']))"); do
-  ./check $p --tier ${1:-quick} 2>&1 | grep -E "tier=|VIOLATION|UNDECIDED|CRASH|VACUITY|KNOWN" | cut -c1-260 | head -6
+  ./check $p --tier ${1:-quick} 2>&1 | grep -E "tier=|VIOLATION|UNDECIDED|CRASH|VACUITY|KNOWN" | cut -c1-260 | head -14
 done
